@@ -103,8 +103,10 @@ PLANS = {
                      rec("pegRk", "peg", 30000, 10, 10, kinds=ALL_KINDS), rec("spngRk", "spng", 20000, 10, 10, kinds=["mapped", "mstream", "stream", "wctx", "mapspan", "io"])],
     },
     "C08": {
-        "quick": [ex("rcv3", "rcv", 3, 3), ex("rcvT", "rcvT", 1, 4, alphabet=["a", "b", "!"]), rec("rcvR", "rcv", 1500, 8, 8)],
-        "thorough": [ex("rcv3", "rcv", 3, 4), ex("rcvT", "rcvT", 1, 6, alphabet=["a", "b", "!"]), rec("rcvR", "rcv", 30000, 10, 10)],
+        "quick": [ex("rcv3", "rcv", 3, 3), ex("rcvT", "rcvT", 1, 4, alphabet=["a", "b", "!"]),
+                  ex("rcvN", "rcvN", 1, 5, alphabet=["a", "(", ")", "["], modes=["E"], invariants=DEFAULT_INVARIANTS + ["TextRefines"]), rec("rcvR", "rcv", 1500, 8, 8)],
+        "thorough": [ex("rcv3", "rcv", 3, 4), ex("rcvT", "rcvT", 1, 6, alphabet=["a", "b", "!"]),
+                     ex("rcvN", "rcvN", 1, 6, alphabet=["a", "(", ")", "[", "]"], invariants=DEFAULT_INVARIANTS + ["TextRefines"]), rec("rcvR", "rcv", 30000, 10, 10)],
     },
     "C11": {
         "quick": [ex("memo3", "memo", 3, 3), ex("memoT", "memoT", 1, 4), ex("lrec", "lrec", 1, 5, alphabet=["a", "+"], invariants=NO_DEN), ex("recm", "rec", 1, 4, alphabet=["a", "b", "(", ")"]),
